@@ -1,5 +1,6 @@
 """C19 - any task exception survives result serialisation."""
 import json
+from concurrent.futures import ThreadPoolExecutor
 
 import common as C
 
@@ -36,7 +37,12 @@ META = dict(
     rule="case = exception graph (1..6 nodes: class kind, argument kinds, args override, unpicklable attribute, raised or not, "
          "cause, context, suppress) run through the three encodings; family 'eq': classes with value-based __eq__ (hand-written "
          "with / without __hash__, always True, raising, @dataclass, local, dynamic) and a path on which two DISTINCT nodes are "
-         "twins (same class, same arguments - equal by ==, not a back-link); non-trivial iff depth >= 2 or a non-trivial class kind "
+         "twins (same class, same arguments - equal by ==, not a back-link); family 'seq': one case = 2..5 store / load steps "
+         "in ONE process with environment changes between them (generated module unregistered / registered in sys.modules, a "
+         "class name deleted / re-published, the not-imported module of type()-created classes appearing, module re-executed or "
+         "re-imported, one class re-created by a factory under the same qualified name), each step loading the SAME payload "
+         "again, storing the same descriptors from the current classes, or storing an unrelated graph sharing class names - every "
+         "step judged on its own with the flags measured at that step; non-trivial iff depth >= 2 or a non-trivial class kind "
          "(anything but a plain builtin) or argument kind (anything but a JSON-native scalar) or a shared node / cycle; "
          "distinct by the canonical JSON of the case",
     trusted_base=["model: coq/theories/ExcSer.v (hand-written transcription of taskiq/serialization.py and the error field "
@@ -46,6 +52,9 @@ META = dict(
                   "abstraction of a loaded exception (class kind, name, argument forms, link tree) in the same driver"],
     assumptions=["coder round trips are deterministic (the same object round-trips the same way twice)",
                  "exception objects and classes have default truthiness (no __bool__/__len__), __module__ is a str or None",
+                 "family 'seq': what a JSON store writes does not depend on sys.modules (json never encodes an exception object "
+                 "or resolves a class), so a payload stored earlier is judged with the flags measured at the load; a step that loads "
+                 "a payload whose original class OBJECT has been replaced under its name since is compared with the model only",
                  "SEEN_EXCEPTIONS_CACHE is not re-entered (no TaskiqResult nested in exception args, one thread)",
                  "taskiq/result/v1.py (pydantic 1) is not active in this environment and is read only"],
 )
@@ -178,6 +187,126 @@ def retype(r, s, cls, native=False):
     lo, hi = ARITY.get(cls, (0, 3))
     s["cls"], s["ctor_n"], s["set_args"] = cls, lo, False
     s["args"] = [r.choice(A_NATIVE) if native or r.random() < .5 else gen_arg(r, False) for _ in range(r.randint(lo, hi))]
+
+
+# ---- family "seq": SEQUENCES of store / load steps in ONE process with environment changes between the steps
+# classes whose importability can be switched: module-level / nested classes of the generated module (unregister the
+# module, delete / re-publish the name), type()-created classes naming the generated module (publishable) or a module
+# that is not imported at first ("nowhere.mod": registered later = lazy import)
+SEQ_MOD = ["ModLevel", "ModSubVal", "Nested", "Deep", "ModBase", "TwoPos", "SubTwoPos", "Rewrites", "KwOnly", "ExtraPos",
+           "WithLock", "ReduceBad", "EqHash", "DataExc", "SubEqVal", "ModMixin"]
+SEQ_PUBLISHABLE = ["DynHere", "DynK", "DynEqHere"]
+SEQ_NOWHERE = ["Dyn", "DynMixin", "DynEq"]
+SEQ_SWITCHABLE = SEQ_MOD + SEQ_PUBLISHABLE + SEQ_NOWHERE
+
+
+def gen_seq_graph(r):
+    n = r.choice([1, 1, 1, 2, 2, 3, 4])
+    nodes = [gen_node(r, n, False, False) for _ in range(n)]
+    for s in nodes:
+        if s["cls"] in FALSY:
+            retype(r, s, "ModLevel")
+        k = r.random()
+        if k < .45:
+            retype(r, s, r.choice(SEQ_MOD), native=r.random() < .7)
+        elif k < .60:
+            retype(r, s, r.choice(SEQ_PUBLISHABLE), native=r.random() < .7)
+        elif k < .72:
+            retype(r, s, r.choice(SEQ_NOWHERE), native=r.random() < .7)
+    if n >= 2 and r.random() < .6:            # make sure the chain is exercised: root -> 1 (cause or unsuppressed context)
+        if r.random() < .5:
+            nodes[0]["cause"] = 1
+        else:
+            nodes[0]["context"], nodes[0]["suppress"] = 1, False
+    return nodes
+
+
+def gen_seq_ops(r, st, nodes):
+    """0..2 environment changes; st = what the generator believes the environment is (only to make the changes
+    meaningful - every op is total in the driver whatever the state)"""
+    ops = []
+    here = [s["cls"] for s in nodes if s["cls"] in SEQ_SWITCHABLE]
+
+    def pick(pool=SEQ_SWITCHABLE):
+        inpool = [c for c in here if c in pool]
+        return r.choice(inpool) if inpool and r.random() < .8 else r.choice(pool)
+    for _ in range(r.choice([0, 1, 1, 1, 2])):
+        k = r.random()
+        if not st["zoo"] and k < .6:
+            ops.append(dict(op="register", mod="zoo"))
+            st["zoo"] = True
+        elif k < .12:
+            ops.append(dict(op="unregister", mod="zoo"))
+            st["zoo"] = False
+        elif k < .30:
+            c = pick(SEQ_MOD + SEQ_NOWHERE)
+            ops.append(dict(op="delattr", cls=c))
+            st["gone"].add(c)
+        elif k < .50:
+            gone = [c for c in st["gone"] if c in here]
+            c = r.choice(gone) if gone and r.random() < .7 else pick()
+            ops.append(dict(op="setattr", cls=c))
+            st["gone"].discard(c)
+        elif k < .62:
+            ops.append(dict(op="reload"))
+            st["gone"].clear()
+        elif k < .70:
+            ops.append(dict(op="reimport"))
+            st["gone"].clear()
+            st["zoo"] = True
+        elif k < .84:
+            ops.append(dict(op="replace", cls=pick()))
+        else:
+            ops.append(dict(op="unregister" if st["nowhere"] else "register", mod="nowhere"))
+            st["nowhere"] = not st["nowhere"]
+    return ops
+
+
+def gen_seq_case(r):
+    """one case = 2..5 steps in one process; the first step stores a graph (often while some of its classes are NOT
+    importable), later steps change the environment and load the SAME payload again (reuse), store the same descriptors
+    again from the classes that exist now (rebuild), or store an unrelated graph sharing class names (new)"""
+    st = dict(zoo=True, nowhere=False, gone=set())
+    nodes = gen_seq_graph(r)
+    ops = []
+    k = r.random()
+    here = [s["cls"] for s in nodes if s["cls"] in SEQ_MOD]
+    if k < .25:
+        ops.append(dict(op="unregister", mod="zoo"))
+        st["zoo"] = False
+    elif k < .50 and here:
+        c = r.choice(here)
+        ops.append(dict(op="delattr", cls=c))
+        st["gone"].add(c)
+    elif k < .60:
+        ops.append(dict(op="register", mod="nowhere"))
+        st["nowhere"] = True
+    steps = [dict(ops=ops, mode="new", nodes=nodes)]
+    for _ in range(r.choice([1, 2, 2, 3, 3, 4])):
+        k = r.random()
+        mode = "reuse" if k < .45 else "rebuild" if k < .75 else "new"
+        if mode == "new":
+            nodes = gen_seq_graph(r)
+            if r.random() < .5:                 # same class names as before, other arguments / links
+                for s, t in zip(nodes, steps[0]["nodes"]):
+                    retype(r, s, t["cls"], native=r.random() < .7)
+        step = dict(ops=gen_seq_ops(r, st, nodes), mode=mode)
+        if mode == "new":
+            step["nodes"] = nodes
+        steps.append(step)
+    return dict(family="seq", steps=steps)
+
+
+def seq_steps(c, o):
+    """the steps of a seq case as (pseudo case, observation, step index) - each step is judged on its own against the
+    flags measured at that step"""
+    return [(dict(nodes=so["specs"], family="seq"), so, k) for k, so in enumerate(o["steps"])]
+
+
+def seq_oracle_applies(pc, so):
+    """the statement's class list does not cover an original whose class OBJECT has been replaced under its name since
+    it was raised (its name resolves to another class: like family 'shadow', model + correspondence only)"""
+    return all(so["nodes"][i]["resolve"] not in ("ROther", "RNonExc") for i in reach(pc))
 
 
 def reach(case):
@@ -492,38 +621,69 @@ def count_cuts(rep, case, t, i, path, enc):
             count_cuts(rep, case, sub, j, p, enc)
 
 
-def explore(ctx, rep, cases, label, use_oracle=True, use_model=True):
-    obs = C.run_driver(ctx, "excser_driver", cases)
+def seq_stats(rep, c, o):
+    prev = None
+    for st, so in zip(c["steps"], o["steps"]):
+        rep.count("seq:mode:" + st.get("mode", "new"))
+        for op in st.get("ops", []):
+            rep.count("seq:op:" + op["op"] + (":" + op["mod"] if "mod" in op else ""))
+        if not st.get("ops"):
+            rep.count("seq:op:none")
+        rep.count("seq:env:zoo_registered=%d,nowhere_registered=%d" % (so["env"]["zoo"], so["env"]["nowhere"]))
+        if so["env"].get("payload_same_as_fresh_store") is not None:
+            rep.count("seq:reused_payload_equals_fresh_store_now:%d" % so["env"]["payload_same_as_fresh_store"])
+        res = [("RNoModule" if not n["has_module"] else n["resolve"]) for n in so["nodes"]]
+        if prev is not None and st.get("mode") == "reuse":
+            # the SAME payload loaded again: how the resolution of its class names moved since the previous load
+            for a, b in zip(prev, res):
+                rep.count("seq:same_payload_reloaded:%s->%s" % (a, b))
+        elif prev is not None and st.get("mode") == "rebuild":
+            for a, b in zip(prev, res):
+                rep.count("seq:same_names_stored_again:%s->%s" % (a, b))
+        prev = res
+    rep.count("seq:steps:%d" % len(c["steps"]))
+
+
+def explore(ctx, rep, cases, label, use_oracle=True, use_model=True, obs=None):
+    if obs is None:
+        obs = C.run_driver(ctx, "excser_driver", cases)
     lits, keep = [], []
     nfail = 0
     for c, o in zip(cases, obs):
-        rep.case(c, nontrivial(c))
+        seq = c.get("family") == "seq"
+        rep.case(c, True if seq else nontrivial(c))
         if "_crash" in o:
             rep.fail("driver crashed (an exception escaped the harness' own measurements)", c, observed=o["_crash"])
             nfail += 1
             continue
-        graph_stats(rep, c, o)
-        for enc in ("text", "dict", "pickle"):
-            e = o["enc"][enc]
-            rep.count("outcome:%s:%s" % (enc, e["o"]))
-            if e["o"] == "loaded":
-                tree_stats(rep, e["t"], enc)
-                if enc == "text":
-                    count_cuts(rep, c, e["t"], 0, [], enc)
-            if not use_oracle:
-                continue
-            bad = oracle(c, o, enc)
-            if bad:
-                what, detail, stage = bad
-                nfail += 1
-                rep.fail("%s round trip: %s" % ({"text": "JSON-text", "dict": "JSON-dict", "pickle": "pickle"}[enc], what),
-                         dict(c, enc=enc), observed=dict(e, detail=detail),
-                         expected="store and load never fail; original class + equal args when importable, reconstructible "
-                                  "and representable, else a named stand-in; JSON keeps cause / unsuppressed context / suppress "
-                                  "along duplicate-free paths", sig=sig_of(c, o, enc, stage))
-        lits.append(C.cpair(C.clist([c_node(n) for n in o["nodes"]]), C.cn(0), c_outcome(o["enc"]["text"]),
-                            c_outcome(o["enc"]["dict"]), c_outcome(o["enc"]["pickle"])))
-        keep.append(c)
+        if seq:
+            seq_stats(rep, c, o)
+        for pc, so, step in (seq_steps(c, o) if seq else [(c, o, None)]):
+            graph_stats(rep, pc, so)
+            judged = use_oracle and (not seq or seq_oracle_applies(pc, so))
+            if seq:
+                rep.count("seq:step_judged_by_oracle:%d" % judged)
+            for enc in ("text", "dict", "pickle"):
+                e = so["enc"][enc]
+                rep.count("outcome:%s:%s" % (enc, e["o"]))
+                if e["o"] == "loaded":
+                    tree_stats(rep, e["t"], enc)
+                    if enc == "text":
+                        count_cuts(rep, pc, e["t"], 0, [], enc)
+                if not judged:
+                    continue
+                bad = oracle(pc, so, enc)
+                if bad:
+                    what, detail, stage = bad
+                    nfail += 1
+                    rep.fail("%s round trip: %s" % ({"text": "JSON-text", "dict": "JSON-dict", "pickle": "pickle"}[enc], what),
+                             dict(c, enc=enc) if not seq else dict(c, enc=enc, step=step), observed=dict(e, detail=detail),
+                             expected="store and load never fail; original class + equal args when importable, reconstructible "
+                                      "and representable, else a named stand-in; JSON keeps cause / unsuppressed context / suppress "
+                                      "along duplicate-free paths", sig=sig_of(pc, so, enc, stage))
+            lits.append(C.cpair(C.clist([c_node(n) for n in so["nodes"]]), C.cn(0), c_outcome(so["enc"]["text"]),
+                                c_outcome(so["enc"]["dict"]), c_outcome(so["enc"]["pickle"])))
+            keep.append(c if not seq else dict(c, step=step))
     if not use_model:        # outside the model's assumptions (finding D11: falsy exception objects): oracle only
         return False, nfail
     bad, fails, _ = C.coq_eval(ctx, label, COQ_HEADER, lits, COQ_BODY, shard=250)
@@ -543,6 +703,12 @@ def run(ctx):
         for sig, pred in SIGNATURES.items():
             if any(pred(f) for f in rep.failures[before:]):
                 corpus_known[sig] = True
+    # family "seq": its driver run (own child processes, every group in a forked child of its own) is started now and
+    # collected after the other families - it only waits for process start-up otherwise
+    rq = ctx.sub_rng("seq")
+    seq_cases = [gen_seq_case(rq) for _ in range(ctx.n(100, 3000))]
+    pool = ThreadPoolExecutor(1)
+    seq_obs = pool.submit(C.run_driver, ctx, "excser_driver", seq_cases, None, 4 if ctx.quick else None)
     r = ctx.sub_rng("gen")
     cases = [gen_case(r) for _ in range(ctx.n(2000, 60000))]
     broken, _ = explore(ctx, rep, cases, "main")
@@ -552,6 +718,9 @@ def run(ctx):
     re_ = ctx.sub_rng("eq")
     b3, _ = explore(ctx, rep, [gen_eq_case(re_) for _ in range(ctx.n(250, 6000))], "eq")
     broken = broken or b3
+    b4, _ = explore(ctx, rep, seq_cases, "seq", obs=seq_obs.result())
+    pool.shutdown()
+    broken = broken or b4
     live = {k["signature"] for k in C.load_known() if k["property"] == "C19" and k["status"] == "known"}
     unexplained = [f for f in rep.failures if not any(p(f) for name, p in SIGNATURES.items() if name in live)]
     if (broken or any(not o["ok"] for o in rep.obligations)) and not unexplained:
@@ -564,32 +733,42 @@ def replay(ctx, path):
     rec = json.load(open(path))
     c = rec.get("case", rec)
     enc_only = c.get("enc")
-    c = {k: v for k, v in c.items() if k not in ("enc", "note", "requires_known")}
+    c = {k: v for k, v in c.items() if k not in ("enc", "step", "note", "requires_known")}
     obs = C.run_driver(ctx, "excser_driver", [c], nproc=1)[0]
     print("case:", json.dumps(c))
     if "_crash" in obs:
         print("driver crashed:", obs["_crash"])
         return 1
+    seq = c.get("family") == "seq"
     rc = 0
-    for enc in ("text", "dict", "pickle"):
-        if enc_only and enc != enc_only:
-            continue
-        print("implementation[%s]:" % enc, json.dumps(obs["enc"][enc]))
-        bad = oracle(c, obs, enc) if c.get("family") != "shadow" else None
-        if bad:
-            f = dict(sig=sig_of(c, obs, enc, bad[2]))
-            known = [k for k, p in SIGNATURES.items() if p(f)]
-            print("  statement VIOLATED: %s (%s)%s" % (bad[0], bad[1], (" [known finding %s]" % known[0]) if known else ""))
-            rc = 1
-        else:
-            print("  statement holds")
+    lits = []
+    for pc, so, step in (seq_steps(c, obs) if seq else [(c, obs, None)]):
+        judged = pc.get("family") != "shadow" and (not seq or seq_oracle_applies(pc, so))
+        if seq:
+            st = c["steps"][step]
+            print("step %d: environment changes %s, mode %s, then sys.modules has generated module=%s nowhere.mod=%s; "
+                  "class names resolve as %s%s" % (step, json.dumps(st.get("ops", [])), st.get("mode", "new"), so["env"]["zoo"],
+                                                   so["env"]["nowhere"], [n["resolve"] for n in so["nodes"]],
+                                                   "" if judged else " (a class object was replaced since the store: model only)"))
+        for enc in ("text", "dict", "pickle"):
+            if enc_only and enc != enc_only:
+                continue
+            print("implementation[%s]:" % enc, json.dumps(so["enc"][enc]))
+            bad = oracle(pc, so, enc) if judged else None
+            if bad:
+                f = dict(sig=sig_of(pc, so, enc, bad[2]))
+                known = [k for k, p in SIGNATURES.items() if p(f)]
+                print("  statement VIOLATED: %s (%s)%s" % (bad[0], bad[1], (" [known finding %s]" % known[0]) if known else ""))
+                rc = 1
+            else:
+                print("  statement holds" if judged else "  not judged by the oracle")
+        lits.append(C.cpair(C.clist([c_node(n) for n in so["nodes"]]), C.cn(0), c_outcome(so["enc"]["text"]),
+                            c_outcome(so["enc"]["dict"]), c_outcome(so["enc"]["pickle"])))
     if c.get("family") == "falsy":
         print("model: not applicable (falsy exception objects are outside the model's assumptions, finding D11)")
         return rc
-    lit = C.cpair(C.clist([c_node(n) for n in obs["nodes"]]), C.cn(0), c_outcome(obs["enc"]["text"]),
-                  c_outcome(obs["enc"]["dict"]), c_outcome(obs["enc"]["pickle"]))
     body = ("Eval vm_compute in (map (fun '(g, r, _, _, _) => (roundtrip EText g r, roundtrip EDict g r, roundtrip EPickle g r)) cases).\n"
             + COQ_BODY)
-    rcq, out = C.coq_eval_raw(ctx, "replay", COQ_HEADER + "\nDefinition cases := [\n" + lit + "\n].\n" + body)
-    print("model (text, dict, pickle) and differing-case list:", " ".join(out.split())[-1500:])
+    rcq, out = C.coq_eval_raw(ctx, "replay", COQ_HEADER + "\nDefinition cases := [\n" + ";\n".join(lits) + "\n].\n" + body)
+    print("model (text, dict, pickle)%s and differing-case list:" % (" per step" if seq else ""), " ".join(out.split())[-1500:])
     return rc
